@@ -19,12 +19,15 @@ Base(t) == CASE t = "Opt_int" -> "int" [] t = "Opt_float" -> "float" [] t = "Opt
              [] t = "Opt_bool" -> "bool" [] t = "Opt_dict" -> "dict" [] t = "Opt_Lit" -> "Lit" [] t = "Opt_Lit2" -> "Lit2" [] OTHER -> t
 \* "Lit" is a Literal whose members are alphabetic words, "Lit2" one whose members contain digits / underscores
 
+\* "str_odd": a string with spaces / punctuation ("two words", "~/a b/c.txt"); "float_exp": a float whose repr uses an exponent (1e-07);
+\* "int_big": an int beyond 32 bits
 Defs == {"absent", "None", "int_pos", "int_zero", "int_neg", "float_pos", "float_neg", "bool_T", "bool_F",
-         "str", "str_empty", "code"}
-IntDefs == {"int_pos", "int_zero", "int_neg"}
-FloatDefs == {"float_pos", "float_neg"}
+         "str", "str_empty", "code", "str_odd", "float_exp", "int_big", "str_dot"}
+\* "str_dot": a string that contains a full stop ("~/data/x.txt", "v1.2")
+IntDefs == {"int_pos", "int_zero", "int_neg", "int_big"}
+FloatDefs == {"float_pos", "float_neg", "float_exp"}
 BoolDefs == {"bool_T", "bool_F"}
-StrDefs == {"str", "str_empty"}
+StrDefs == {"str", "str_empty", "str_odd", "str_dot"}
 
 \* the Python type of a default value, as a type string
 TypOfDef(d) == CASE d \in IntDefs -> "int" [] d \in FloatDefs -> "float" [] d \in BoolDefs -> "bool"
@@ -38,7 +41,7 @@ Compat(t, d) ==
   \/ d \in FloatDefs /\ Base(t) \in {"float", "absent"}
   \/ d \in BoolDefs /\ Base(t) \in {"bool", "absent"}
   \/ d = "str" /\ Base(t) \in {"str", "absent", "Lit", "Lit2"}
-  \/ d = "str_empty" /\ Base(t) \in {"str", "absent"}
+  \/ d \in {"str_empty", "str_odd", "str_dot"} /\ Base(t) \in {"str", "absent"}
   \/ d = "code" /\ Base(t) \in {"int", "absent", "List_str", "Dotted", "dict"}
 
 Docs == {"absent", "plain", "dot"}
